@@ -190,7 +190,23 @@ def gen_chunks(run):
 
 
 def run_chunks(case):
-  strat, dfmt, order, size, n, rot, src = case
+  """One case = one (strategy, format, size, length, values) asked for EVERY byte order in
+  sequence (starting from the case's order, forwards then backwards) in the same process, so
+  that state kept between calls (caches keyed without the byte order) shows."""
+  strat, dfmt, order0, size, n, rot, src = case
+  k = ORDERS.index(order0)
+  seq_orders = ORDERS[k:] + ORDERS[:k]
+  seq_orders = seq_orders + seq_orders[::-1]
+  res = None
+  for order in seq_orders:
+    r = one_chunks_call(strat, dfmt, order, size, n, rot, src)
+    if r.viol is not None:
+      return r
+    res = r
+  return res
+
+
+def one_chunks_call(strat, dfmt, order, size, n, rot, src):
   vals = FMT_VALUES[dfmt]
   seq = [vals[(i + rot) % len(vals)] for i in range(n)]
   pad = vals[(rot + 3) % len(vals)]
@@ -226,7 +242,8 @@ def run_chunks(case):
   exp = [struct.unpack(fmt, struct.pack(fmt, v))[0] for v in exp_vals]
   if got != exp:
     return bad("chunks:%s:value" % strat, "unpacking the concatenated chunks does not give the sequence "
-               "followed by pad values (byte order %r)" % order, exp[:8], got[:8], needs_pad)
+               "followed by pad values (byte order %r, asked after other byte orders in the same process)" % order,
+               exp[:8], got[:8], needs_pad)
   if strat == "struct":
     data = list(seq) if src == "list" else (v for v in seq)
     if size is None:
